@@ -239,7 +239,7 @@ func paren(f Formula) string {
 func StripVersions(s string) string {
 	var b strings.Builder
 	for i := 0; i < len(s); i++ {
-		if s[i] == '#' {
+		if s[i] == '#' || s[i] == '\'' {
 			j := i + 1
 			for j < len(s) && s[j] >= '0' && s[j] <= '9' {
 				j++
